@@ -579,8 +579,8 @@ void suite_hist(int tier) {
     }
     int presets[] = { 0, 5, 0x7ffffffd, 0x7ffffffe, 0x7fffffff, -5, -1 };
     /* bounded exhaustive over a small alphabet, depth 4 (quick) / 5 (thorough), 2 slots */
-    const char *alpha[] = { "c0:6:2:1:1", "c1:6:3:2:2", "c1:3:3:3:3", "d0", "d1", "u0", "u1", "f0:3:4:4:3", "c0:6:4:2:2:8", "f1:0:3:2:2:64", "D0", "U0", "Q1" };
-    int na = 13, depth = tier ? 5 : 4;
+    const char *alpha[] = { "c0:6:2:1:1", "c1:6:3:2:2", "c1:3:3:3:3", "d0", "d1", "u0", "u1", "f0:3:4:4:3", "c0:6:4:2:2:8", "f1:0:3:2:2:64", "D0", "U0", "Q1", "c1:6:3:0:0", "c0:6:1:0:0" };
+    int na = 15, depth = tier ? 5 : 4;
     long total = 1; for (int i = 0; i < depth; i++) total *= na;
     for (long code = 0; code < total; code++) {
         if (!tier && rnd(12) != 0) continue;
@@ -615,10 +615,11 @@ void suite_hist(int tier) {
     /* equally shaped instances alive together, another shape created, one of the equals destroyed, a block of the
        same size allocated again: the survivor must be untouched (private tables are per instance, shared ones counted) */
     {
-        static const char *shp[] = { "6:4:2:2", "6:5:3:3", "6:3:5:5", "3:5:5:3", "0:3:2:2", "6:2:1:1" };
-        for (int a = 0; a < 6; a++) for (int b = 0; b < 6; b++) for (int third = 0; third < 6; third++) {
+        /* "6:3:0:0": an rs_vand instance without parity takes part in the shared-table count like any other */
+        static const char *shp[] = { "6:4:2:2", "6:5:3:3", "6:3:5:5", "3:5:5:3", "0:3:2:2", "6:2:1:1", "6:3:0:0" };
+        for (int a = 0; a < 7; a++) for (int b = 0; b < 7; b++) for (int third = 0; third < 7; third++) {
             if (b == a) continue;
-            if (!tier && a >= 3 && rnd(3)) continue;
+            if (!tier && a >= 3 && a != 6 && rnd(3)) continue;
             if (!tier && third != a && third != b && rnd(3)) continue;
             for (int victim = 0; victim < 2; victim++) {
                 hist_t h; h.nops = 0; h.preset = 0;
